@@ -49,3 +49,26 @@ impl Data {
         unimplemented!()
     }
 }
+
+pub mod trusted_axioms2 {
+    use super::*;
+
+    /// A4: `String` hashes and compares consistently (vstd ships this axiom for the integer types only)
+    #[verifier::external_body]
+    pub broadcast proof fn axiom_string_key_model()
+        ensures
+            #[trigger] vstd::std_specs::hash::obeys_key_model::<String>(),
+    {
+    }
+}
+
+// `#[derive(Clone)]` of Invoke (needed only for the bound `List<T: Clone>`; never called in this unit)
+impl Clone for Invoke {
+    #[verifier::external_body]
+    fn clone(&self) -> (r: Self)
+        ensures
+            r == *self,
+    {
+        unimplemented!()
+    }
+}
